@@ -269,7 +269,16 @@ def run(tier, seed, replay=None):
                      {"events_key": c["key"], "program": c["_src"]})
     # write-through visibility on legal, accepted programs
     rnd.shuffle(runnable)
-    clo = [c for c in runnable if any(e["k"] == "cdef" for e in c["events"])]
+    def clo_rank(c):
+        # most telling first: a reference taken BEFORE the literal on the captured place, a write AFTER it, and the
+        # whole program inside a branch
+        ev = c["events"]
+        i = next(k for k, e in enumerate(ev) if e["k"] == "cdef")
+        pl = ev[i]["pl"]
+        before = any(e["k"] in ("bs", "bm") and e["pl"] == pl for e in ev[:i])
+        after = any(e["k"] in ("wt", "wr", "tm") for e in ev[i + 1:])
+        return -(2 * (before and after) + (c.get("ctx") == "inif") + before)
+    clo = sorted([c for c in runnable if any(e["k"] == "cdef" for e in c["events"])], key=clo_rank)
     rest = [c for c in runnable if c not in clo]
     runnable = clo[:120 if tier == "quick" else 2000] + rest[:150 if tier == "quick" else 3000]
 
